@@ -52,13 +52,22 @@ def run_impl(c):
     h = TimeSeriesHolder('k')
     for nm in c['order']:
         h[nm] = list(c['series'][nm])
-    return {'text': h.GenerateCSVtext(c['fmt']), 'header': h.GetSeriesList()}
+    # the solver-level entry point must give the same table
+    from sfc_models.equation_solver import EquationSolver
+    es = EquationSolver()
+    es.TimeSeries = h
+    via_solver = es.GenerateCSVtext(c['fmt'])
+    return {'text': h.GenerateCSVtext(c['fmt']), 'header': h.GetSeriesList(), 'via_solver': via_solver}
 
 
 def oracle(c, res):
     fails = []
     keys = c['order']
     text = res['text']
+    if res.get('via_solver') != text:
+        fails.append({'key': 'EquationSolver.GenerateCSVtext:differs-from-holder',
+                      'what': 'EquationSolver.GenerateCSVtext(%r) differs from the holder\'s table' % (c['fmt'],),
+                      'replay': {'kind': 'table', 'case': c}})
 
     def fail(key, what):
         fails.append({'key': key, 'what': what, 'replay': {'kind': 'table', 'case': c}})
